@@ -80,6 +80,10 @@ def rec_fit(args):
     linear = c['mode'] == 'linear_growth' or lingeo
     step = 2.0 if linear else 0.15
     minsma, maxsma = 4.0 * sc, 26.0 * sc
+    if idx % 6 == 1 and not big:
+        minsma = 0.0                      # down to the central pixel: the sma = 0 isophote belongs to the result
+    elif idx % 6 == 2 and not big:
+        minsma = [0.3, 0.45, 0.25][idx % 3]      # below the 0.5 px floor of the inward pass, but not zero: no sma = 0 isophote
     if big and not linear:
         step = 0.2
     rec = {'id': idx, 'kind': 'fit', 'raised': False, 'demand_fit': c['eps'] <= 50 or rnd, 'fix_center': fixc, 'fix_pa': fixp, 'fix_eps': fixe, 'params': c}
@@ -94,6 +98,7 @@ def rec_fit(args):
         rec['sma'] = [fk(i.sma, S) for i in iso]
         rec['maxsma_bound'] = fk(maxsma + step if linear else maxsma * (1 + step), S) + 2
         rec['minsma_bound'] = fk((minsma - step) if linear else minsma / (1 + step), S) - 2
+        rec['central_allowed'] = minsma == 0.0
         rec['image_untouched'] = bool(np.array_equal(img, img0))
         rec['x0'] = [fk(i.x0, S) for i in iso]; rec['y0'] = [fk(i.y0, S) for i in iso]
         rec['eps'] = [fk(i.eps, A) for i in iso]; rec['pa'] = [fk(i.pa, A) for i in iso]
@@ -129,7 +134,7 @@ def rec_fit(args):
         rec['raised'] = True; rec['exc'] = repr(e)
         for k in ('sma', 'x0', 'y0', 'eps', 'pa', 'x0_err', 'y0_err', 'eps_err', 'pa_err', 'intens_rel', 'well'):
             rec[k] = []
-        rec.update(intens_tol=330, maxsma_bound=0, minsma_bound=0, image_untouched=True, x0_init=0, y0_init=0, pa_init=0, eps_init=0, tx0=0, ty0=0, teps=0, tpa=0,
+        rec.update(intens_tol=330, maxsma_bound=0, minsma_bound=0, central_allowed=True, image_untouched=True, x0_init=0, y0_init=0, pa_init=0, eps_init=0, tx0=0, ty0=0, teps=0, tpa=0,
                    model_checked=False, model_maxrel=0, model_tol=500)
     return rec
 
